@@ -1,5 +1,5 @@
 """C08 Dropping queue: a statement is delivered intact or reported dropped, never both."""
-from lib import vf, opxlib
+from lib import vf, opxlib, wmmlib
 
 LEVEL = "model_checking"
 SRC = "engines/opx/sc_c08.cpp"
@@ -7,6 +7,7 @@ SRC = "engines/opx/sc_c08.cpp"
 
 def prebuild():
     opxlib.build("sc_c08", SRC)
+    wmmlib.build()
 
 
 def jobs(tier):
@@ -77,14 +78,32 @@ def run(ctx):
                 "oversize, flush_log, init_backtrace, LOG_BACKTRACE, flush_backtrace, remove_logger_blocking, thread exit} on "
                 "BoundedDropping (256 B) and UnboundedDropping (128->256 B) queues, results of the real log_statement calls "
                 "recorded; result false <=> never delivered, true <=> delivered once in order; sum of 'Dropped N' notifications "
-                "== number of false results (bounded); control requests take effect; plus every script of up to 3 operations over the eight "
+                "== number of false results (bounded); the drop counter's increment / get-and-reset explored at atomic-operation granularity (Engine A); control requests take effect; plus every script of up to 3 operations over the eight "
                 "operation kinds against a second thread [small, flush_log] under bound 0 (thorough: all pairs of scripts <= 2 under bound 1); distinct = distinct observable outcomes")
     ctx.set_deadline(170 if ctx.tier == "quick" else 1800)
     exe = opxlib.build("sc_c08", SRC)
     opxlib.run_jobs(ctx, exe, jobs(ctx.tier), "sc_c08")
     opxlib.run_jobs(ctx, exe, enum_jobs(ctx.tier), "sc_c08(enum)", explorers=8, workers=2)
+    # the drop counter itself, below Engine B's granularity: the real increment (frontend) and get-and-reset (backend) of
+    # ThreadContext under Engine A's explorer, every interleaving of their atomic operations and every admissible load value
+    hq = wmmlib.build()
+    n = 4 if ctx.tier == "quick" else 6
+    batch = ";".join("i%d,g%d" % (i, g) for i in range(1, n + 1) for g in range(1, n))
+    rr = vf.run(hq, ["--mode", "counter", "--ops-batch", batch, "--deadline", 300], timeout=1200)
+    ctx.absorb(rr, "h_queues(counter)")
     ctx.assumptions.append("three outcomes of a log call: true, false, threw QuillError (accepted only for an unbounded queue and a statement larger than its maximum capacity)")
 
 
 def replay(rep, extra):
+    if rep["record"].get("mode") == "counter":
+        exe = wmmlib.build()
+        args = []
+        for kv in rep["record"]["config"].split():
+            k, v = kv.split("=", 1)
+            args += ["--" + k, v]
+        rr = vf.run(exe, args + ["--replay", rep["record"]["case"]], timeout=120)
+        bad = [r for r in rr.records if r.get("t") == "viol"]
+        for x in bad:
+            print("VIOLATION property=C08 replay=(given) detail=%s" % x)
+        return 1 if bad else 0
     return opxlib.replay("C08", opxlib.build("sc_c08", SRC), rep)
